@@ -31,7 +31,9 @@ DESC = {
 
 CTOR_SPARSE = ["csr", "csc", "coo", "lil", "csr_unsorted", "csr_zeros"]
 FORMS = ["lol_dense", "lol_coo", "lol_coo_zeros", "dict", "dict_zeros", "list_nparray", "list_dict",
-         "list_sparse", "empty_list", "md_empty_form", "md_none_form"]
+         "list_sparse", "empty_list", "md_empty_form", "md_none_form",
+         # IDs handed over as numpy arrays: fixed width much wider than needed / object dtype / tuple
+         "ids_wide_dtype", "ids_object_dtype", "ids_tuple"]
 OP_ROUTES = ["sort_roundtrip", "transpose2", "filter_all_obs", "filter_all_samp", "subsample_full_samp",
              "subsample_full_obs", "copy", "md_reordered", "md_completed_later"]
 # histories that change the content; the partner is the dense construction of whatever content they reached
@@ -154,6 +156,9 @@ def form_input(spec, form):
         if nz:
             raise Skip()
         data = []
+    elif form in ("ids_wide_dtype", "ids_object_dtype", "ids_tuple"):
+        data = arr
+        mdo["ids_form"] = form
     elif form in ("md_empty_form", "md_none_form"):
         # absent metadata spelled as a list of empty / None entries
         if spec.get("omd") is not None and spec.get("smd") is not None:
@@ -227,6 +232,87 @@ def apply_inplace(t, spec, pre, op, axis):
     return t
 
 
+DERIVATIONS = ["copy", "sort_order", "sort", "transpose", "filter_copy", "ctor_from_parts", "pa_copy", "norm_copy",
+               "subsample_by_id", "update_ids_copy"]
+ALIAS_OPS = ["scale", "pa", "swap_ids", "rename_ids", "add_md", "del_md", "set_md_key", "poke_matrix"]
+
+
+def alias_route(base, derive, op):
+    return "aliased:%s:%s:%s" % (base, derive, op)
+
+
+def derive_table(src, how):
+    from biom import Table
+    if how == "copy":
+        return src.copy()
+    if how == "sort_order":
+        return src.sort_order(list(src.ids()))
+    if how == "sort":
+        return src.sort(axis="observation")
+    if how == "transpose":
+        return src.transpose()
+    if how == "filter_copy":
+        return src.filter(lambda v, i, m: True, axis="observation", inplace=False)
+    if how == "ctor_from_parts":
+        return Table(src.matrix_data, src.ids(axis="observation"), src.ids(), src.metadata(axis="observation"),
+                     src.metadata(), type=src.type)
+    if how == "pa_copy":
+        return src.pa(inplace=False)
+    if how == "norm_copy":
+        return src.transform(lambda d, i, m: d, axis="sample", inplace=False)
+    if how == "subsample_by_id":
+        return src.subsample(len(src.ids()), by_id=True, seed=3)
+    if how == "update_ids_copy":
+        return src.update_ids({i: i for i in src.ids()}, inplace=False)
+    raise ValueError(how)
+
+
+def alias_mutate(d, op):
+    """an in-place update of the derived table `d`"""
+    obs = list(d.ids(axis="observation"))
+    samp = list(d.ids())
+    if op == "scale":
+        d.transform(lambda v, i, m: v * 3 + 1, axis="observation", inplace=True)
+    elif op == "pa":
+        d.pa(inplace=True)
+    elif op == "swap_ids":
+        ax, ids = ("observation", obs) if len(obs) > 1 else ("sample", samp)
+        if len(ids) < 2:
+            raise Skip()
+        d.update_ids({ids[0]: ids[-1], ids[-1]: ids[0]}, axis=ax, strict=False, inplace=True)
+    elif op == "rename_ids":
+        d.update_ids({i: i + "_renamed_to_something_longer" for i in obs}, axis="observation", inplace=True)
+        d.update_ids({i: "Z" + i for i in samp}, axis="sample", inplace=True)
+    elif op == "add_md":
+        d.add_metadata({i: {"grp": "ALIAS", "new_cat": k} for k, i in enumerate(obs)}, axis="observation")
+        d.add_metadata({i: {"grp": "ALIAS", "new_cat": k} for k, i in enumerate(samp)}, axis="sample")
+    elif op == "del_md":
+        if d.metadata(axis="observation") is None and d.metadata() is None:
+            raise Skip()
+        for ax in ("observation", "sample"):
+            md = d.metadata(axis=ax)
+            if md is not None:
+                keys = sorted({k for e in md for k in e})
+                d.del_metadata(keys=keys[:1] or None, axis=ax)
+    elif op == "set_md_key":
+        if d.metadata(axis="observation") is None and d.metadata() is None:
+            raise Skip()
+        for ax, ids in (("observation", obs), ("sample", samp)):
+            if d.metadata(axis=ax) is not None:
+                for i in ids:
+                    e = d.metadata(i, axis=ax)
+                    for k in list(e):
+                        e[k] = "MUT"
+                    e["alias_key"] = 1
+    elif op == "poke_matrix":
+        m = d.matrix_data
+        if m.nnz == 0:
+            raise Skip()
+        m.data[:] = m.data * 5 + 1
+    else:
+        raise ValueError(op)
+
+
 def reorder_keys(md, which):
     """the same entries with the key insertion order reversed on the IDs in `which` (never the first ID)"""
     out = []
@@ -268,9 +354,30 @@ def build_operand(spec, route, need_model=True):
         if route == "dense":
             t = core.build(spec, "dense")
         else:
-            t = Table(data, list(spec["obs"]), list(spec["samp"]), observation_metadata=omd, sample_metadata=smd,
+            import numpy as np
+            idf = mdo.get("ids_form")
+            wrap = {None: list, "ids_tuple": tuple,
+                    "ids_wide_dtype": lambda x: np.array(list(x), dtype="<U%d" % (max([len(i) for i in x] + [1]) + 23)),
+                    "ids_object_dtype": lambda x: np.array(list(x), dtype=object)}[idf]
+            t = Table(data, wrap(spec["obs"]), wrap(spec["samp"]), observation_metadata=omd, sample_metadata=smd,
                       type=spec.get("type"), **kw)
         return t, mi, facts
+    if route.startswith("aliased:"):
+        # the SOURCE of a derivation is the operand; the derived table is updated in place and kept alive
+        _, base_route, how, op = route.split(":")
+        src, mi, facts = build_operand(spec, base_route, need_model=True)
+        if src.shape[0] == 0 or src.shape[1] == 0:
+            raise Skip()
+        d = derive_table(src, how)
+        alias_mutate(d, op)
+        src._c16_keep_alive = d
+        if mi is not None and not mi.get("ctor"):
+            mi = dict(mi, layout=flat_rowmajor(src.matrix_data), fmt=fmt_label(src.matrix_data))
+        elif mi is not None:
+            # derivations are read accessors of the source (they may re-lay it): the representation it has now
+            # is the model's input, the identity fields stay those of the construction
+            mi = dict(mi, layout=flat_rowmajor(src.matrix_data), fmt=fmt_label(src.matrix_data), ctor=False)
+        return src, mi, facts
     if route.startswith("inplace:"):
         _, base_route, pre, op, axis = route.split(":")
         t = build_operand(spec, base_route, need_model=False)[0]
@@ -488,6 +595,23 @@ def fresh_queries(t, order="cos", rot=0):
             vecs += [["observation", o, fr_list(t.data(o, axis="observation"))] for o in obs]
         elif blk == "s":
             vecs += [["sample", x, fr_list(t.data(x, axis="sample"))] for x in samp]
+    # look-alikes of existing IDs (extension, prefix, blank, case) must be refused by every by-ID question; an
+    # answer is recorded and judged like one (the content has no such ID)
+    for ax, ids, oth in (("observation", obs, samp), ("sample", samp, obs)):
+        for bad in core.tricky_unknown_ids(ids)[rot % 3::3][:5]:
+            if t.exists(bad, axis=ax):
+                vecs.append([ax, bad, []])
+            try:
+                vecs.append([ax, bad, fr_list(t.data(bad, axis=ax))])
+            except Exception as e:
+                if core.err_name(e) != "UnknownID":
+                    raise
+            try:
+                v = t.get_value_by_ids(bad, oth[0]) if ax == "observation" else t.get_value_by_ids(oth[0], bad)
+                cells.append([bad, oth[0], core.frac(v)] if ax == "observation" else [oth[0], bad, core.frac(v)])
+            except Exception as e:
+                if core.err_name(e) != "UnknownID":
+                    raise
     return cells, vecs
 
 
@@ -587,16 +711,16 @@ def parse_json_export(text):
 _h5n = [0]
 
 
-def hdf5_export(t):
+def hdf5_export(t, path=None, **kw):
     """write with to_hdf5, re-read with h5py only; the file is removed immediately"""
     import h5py
     import numpy as np
     os.makedirs(TMP, exist_ok=True)
     _h5n[0] += 1
-    path = os.path.join(TMP, "e%d_%d.h5" % (os.getpid(), _h5n[0]))
+    path = path or os.path.join(TMP, "e%d_%d.h5" % (os.getpid(), _h5n[0]))
     try:
         with h5py.File(path, "w") as f:
-            t.to_hdf5(f, "c16")
+            t.to_hdf5(f, "c16", **kw)
         with h5py.File(path, "r") as f:
             def ids(ax):
                 return [x.decode("utf8") if isinstance(x, bytes) else str(x) for x in f[ax + "/ids"][:]]
@@ -631,14 +755,34 @@ def hdf5_export(t):
                    "smd": md("sample", len(samp)), "type": typ}
             tab2 = dict(tab, rows=core.grid_frac(g_samp_t))
             attrs = json.dumps({"shape": [int(x) for x in f.attrs["shape"]], "nnz": int(f.attrs["nnz"]),
-                                "stored": [n_o, n_s], "type": typ})
+                                "stored": [n_o, n_s], "type": typ,
+                                "date": str(f.attrs["creation-date"]) if "creation_date" in kw else None,
+                                "generated-by": str(f.attrs["generated-by"]), "id": str(f.attrs["id"])})
     finally:
         if os.path.exists(path):
             os.remove(path)
     return tab, tab2, attrs
 
 
-def exports_of(t, md_key):
+REFUSED = {"obs": ["<export refused>"], "samp": [], "rows": [[]], "omd": None, "smd": None, "type": None}
+
+
+def _bracket(x):
+    return "<%s>" % (x,)
+
+
+def _upper_formatter(grp, header, md, compression):
+    """a caller-supplied HDF5 formatter: the category written as upper-case text"""
+    import h5py
+    grp.create_dataset("metadata/%s" % header.replace("/", "@@SLASH@@"), shape=(len(md),),
+                       dtype=h5py.special_dtype(vlen=str),
+                       data=[str(m[header]).upper().encode("utf8") for m in md], compression=compression)
+
+
+def exports_of(t, md_key, path=None, opts=True):
+    """default exports plus (opts) every optional keyword of to_tsv / to_json / to_hdf5"""
+    import datetime
+    import io
     ex, q = [], []
     txt = t.to_tsv()
     ex.append(("tsv", parse_tsv(txt)))
@@ -651,21 +795,75 @@ def exports_of(t, md_key):
     ex.append(("json", jt))
     q.append(("json_header", jrest))
     q.append(("json_document_without_date", jall))
-    try:
-        h1, h2, attrs = hdf5_export(t)
-    except ValueError as e:
-        # metadata categories that differ between IDs cannot be written; equal tables must then BOTH be refused:
-        # the refusal is the export's result and is compared like one
-        refused = {"obs": ["<export refused: %s>" % type(e).__name__], "samp": [], "rows": [[]], "omd": None, "smd": None,
-                   "type": None}
-        ex.append(("hdf5", refused))
-        ex.append(("hdf5_sample_matrix", refused))
-        q.append(("hdf5_attrs", "refused"))
-        return ex, q
-    ex.append(("hdf5", h1))
-    ex.append(("hdf5_sample_matrix", h2))
-    q.append(("hdf5_attrs", attrs))
+
+    def h5(tag, **kw):
+        try:
+            h1, h2, attrs = hdf5_export(t, path=path, **kw)
+        except ValueError:
+            # metadata categories that differ between IDs cannot be written; equal tables must then BOTH be
+            # refused: the refusal is the export's result and is compared like one
+            ex.append((tag, REFUSED))
+            ex.append((tag + "_sample_matrix", REFUSED))
+            q.append((tag + "_attrs", "refused"))
+            return
+        ex.append((tag, h1))
+        ex.append((tag + "_sample_matrix", h2))
+        q.append((tag + "_attrs", attrs))
+    h5("hdf5")
+    if opts:
+        fixed = datetime.datetime(2020, 2, 29, 23, 59, 58, 123456)
+        aware = datetime.datetime(1999, 12, 31, 1, 2, 3, tzinfo=datetime.timezone(datetime.timedelta(hours=-7)))
+        # to_tsv: column name, header override, custom formatter, direct_io
+        buf = io.StringIO()
+        r = t.to_tsv(header_key=md_key, header_value="HV" if md_key else None, metadata_formatter=_bracket,
+                     observation_column_name="Taxon name", direct_io=buf)
+        q.append(("tsv_opts_text", json.dumps([r, buf.getvalue()], ensure_ascii=False)))
+        otxt = buf.getvalue()
+        q.append(("!tsv_opts_header", otxt.split("\n")[1].split("\t")[0] + "|" + (otxt.split("\n")[1].split("\t")[-1] if md_key else ""),
+                  "Taxon name|" + ("HV" if md_key else "")))
+        ex.append(("tsv_opts", parse_tsv(otxt.rstrip("\n"), md_key)))
+        buf = io.StringIO()
+        t.delimited_self(delim=";", direct_io=buf)
+        q.append(("delimited_semicolon", buf.getvalue()))
+        # to_json: explicit dates (naive and timezone-aware), direct_io: the WHOLE document must agree
+        buf = io.StringIO()
+        r = t.to_json("c16 opts", direct_io=buf, creation_date=aware)
+        q.append(("json_direct_io_aware_date", json.dumps([r, json.loads(buf.getvalue())], sort_keys=True, ensure_ascii=False)))
+        dj = json.loads(buf.getvalue())
+        q.append(("!json_date_and_generator", json.dumps([dj.get("date"), dj.get("generated_by")]),
+                  json.dumps([aware.isoformat(), "c16 opts"])))
+        ex.append(("json_opts", parse_json_export(buf.getvalue())[0]))
+        q.append(("json_fixed_date", json.dumps(json.loads(t.to_json("g", creation_date=fixed)), sort_keys=True,
+                                                ensure_ascii=False)))
+        # to_hdf5: no compression, explicit date, caller-supplied formatter for one category
+        fs = {md_key: _upper_formatter} if md_key is not None and all(md_key in e for e in (t.metadata(axis="observation") or [])) else {}
+        h5("hdf5_opts", compress=False, creation_date=aware, format_fs=fs)
     return ex, q
+
+
+def unusual_calls(t, path):
+    """process-level state: exports with unusual arguments and the SAME path re-used for other formats and another
+    table; whatever they leave behind in the module must not show in later default exports"""
+    import io
+    import h5py
+    import numpy as np
+    from biom import Table
+    t.to_tsv(header_key="no such key", header_value="X", metadata_formatter=lambda x: "ZZ")
+    t.to_tsv(metadata_formatter=lambda x: 1 / 0)          # never called without header_key
+    t.delimited_self(delim=",", observation_column_name="")
+    t.to_json("other generator \"quoted\"", direct_io=io.StringIO())
+    other = Table(np.array([[9.0, 0.0, 1.0]]), ["only"], ["p", "q", "r"], [{"grp": "zzz"}], None, type="Gene table")
+    with open(path, "w") as f:                            # JSON text, then TSV text, at the path
+        f.write(t.to_json("x"))
+    with open(path, "w") as f:
+        f.write(other.to_tsv())
+    with h5py.File(path, "w") as f:                       # another table as HDF5 at the same path
+        other.to_hdf5(f, "x", compress=False, format_fs={"grp": _upper_formatter})
+    with h5py.File(path, "w") as f:
+        try:
+            t.to_hdf5(f, "x", format_fs={"grp": _upper_formatter, "taxonomy": _upper_formatter})
+        except ValueError:
+            pass
 
 
 # ----------------------------------------------------------------------------- cases
@@ -675,6 +873,22 @@ def layout_key(t, facts):
 
 
 def run_pair(ctx, case, tags=()):
+    """a table that raises on a by-ID question about its own IDs (stale lookups after someone else's in-place
+    update, ...) is a failure of the property, not of the harness"""
+    try:
+        return _run_pair(ctx, case, tags)
+    except Exception as e:
+        name = core.err_name(e)
+        if name in ("UnknownID", "TableException", "UnknownAxis", "DisjointID", "Key", "Index"):
+            ctx.case(case, nontrivial=True)
+            ctx.fail(case, "table-raised-on-own-ids:" + name, tuple(tags) + ("route_a=" + str(case.get("route_a")),
+                                                                             "route_b=" + str(case.get("route_b"))),
+                     detail={"error": repr(e)[:300]})
+            return None
+        raise
+
+
+def _run_pair(ctx, case, tags=()):
     """case: {"kind":"pair","spec_a","route_a","spec_b","route_b","steps":[[side,acc]...],"exports":bool,
     "expect":"equal"|"differs"}"""
     try:
@@ -723,7 +937,7 @@ def run_pair(ctx, case, tags=()):
     exports, qs = [], []
     fa_after, fb_after = fmt_label(a.matrix_data), fmt_label(b.matrix_data)
     same = (ca == cb)
-    if same:
+    if same and case.get("sweep", True):
         qa, qb = queries(a), queries(b)
         na = [n for n, _ in qa]
         if na != [n for n, _ in qb]:
@@ -732,11 +946,50 @@ def run_pair(ctx, case, tags=()):
             qs = [[n, x, y] for (n, x), (_, y) in zip(qa, qb)]
         if case.get("exports"):
             md_key = lacking_key(a) if a.metadata(axis="observation") is not None else None
-            ea, xa = exports_of(a, md_key)
-            eb, xb = exports_of(b, md_key)
+            if case.get("unusual"):
+                # process-level state: one path for every file, unusual calls between the two tables' exports
+                shared = os.path.join(TMP, "shared_%d.biom" % os.getpid())
+                try:
+                    if case["unusual"] == "late":
+                        unusual_calls(b, shared)
+                    ea, xa = exports_of(a, md_key, path=shared)
+                    unusual_calls(a, shared)
+                    eb, xb = exports_of(b, md_key, path=shared)
+                finally:
+                    if os.path.exists(shared):
+                        os.remove(shared)
+                ctx.count("exports-around-unusual-calls")
+            else:
+                ea, xa = exports_of(a, md_key, opts=case.get("export_opts", True))
+                eb, xb = exports_of(b, md_key, opts=case.get("export_opts", True))
+            # absolute expectations (name starts with "!"): [name, observed, expected]
+            absq = [["%s@%s" % (e[0], w), e[1], e[2]] for w, xs in (("a", xa), ("b", xb)) for e in xs if len(e) == 3]
+            xa = [e for e in xa if len(e) == 2]
+            xb = [e for e in xb if len(e) == 2]
+            qs += absq
             names = [[n for n, _ in ea] + [n for n, _ in xa], [n for n, _ in eb] + [n for n, _ in xb]]
             qs.append(["export-names", json.dumps(names[0]), json.dumps(names[1])])
             exports = [[n, x, y] for (n, x), (_, y) in zip(ea, eb)]
+            # ... and each default export carries the content of its own table (IDs, values; metadata where the
+            # format keeps it verbatim): whatever earlier calls left behind in the process must not show
+            for who, cont, exs in (("a", ca, ea), ("b", cb, eb)):
+                for n, x in exs:
+                    if x is REFUSED:
+                        continue
+                    grid_only = dict(cont, omd=None, smd=None, type=None)
+                    if n == "tsv":
+                        exports.append([n + "@%s-vs-content" % who, x, grid_only])
+                    elif n == "tsv_md":
+                        col = [{md_key: json.dumps(str(e.get(md_key)))} for e in spec_of_table(a if who == "a" else b)["omd"]]
+                        exports.append([n + "@%s-vs-content" % who, x, dict(grid_only, omd=col)])
+                    elif n == "tsv_opts":
+                        col = None if md_key is None else \
+                            [{md_key: json.dumps(_bracket(e.get(md_key)))} for e in spec_of_table(a if who == "a" else b)["omd"]]
+                        exports.append([n + "@%s-vs-content" % who, x, dict(grid_only, omd=col)])
+                    elif n in ("json", "json_opts"):
+                        exports.append([n + "@%s-vs-content" % who, x, cont])
+                    elif n in ("hdf5", "hdf5_sample_matrix", "hdf5_opts", "hdf5_opts_sample_matrix"):
+                        exports.append([n + "@%s-vs-content" % who, dict(x, omd=None, smd=None, type=None), grid_only])
             qs += [[n, x, y] for (n, x), (_, y) in zip(xa, xb)]
             ctx.count("exports-compared")
     req = {"op": "pair", "steps": resolved, "checks": checks, "exports": exports, "queries": qs,
@@ -756,7 +1009,10 @@ def run_pair(ctx, case, tags=()):
         ctx.fail(case, r["clause"], tags, detail=detail)
     elif not r["agree"]:
         ctx.diverge(case, "model and code differ in: %s" % ",".join(r.get("differs", [])), tags, detail=detail)
-    if same != (case["expect"] == "equal"):
+    if same != (case["expect"] == "equal") and (case["route_a"].startswith("aliased:") or
+                                                 str(case["route_b"]).startswith("aliased:")):
+        ctx.fail(case, "aliased-source-changed", tags, detail=detail)
+    elif same != (case["expect"] == "equal"):
         ctx.diverge(case, "the routes did not produce the intended %s content" % case["expect"], tags, detail=detail)
     return r
 
@@ -915,7 +1171,7 @@ def mutate(rng, spec, only=None):
     s = copy.deepcopy(spec)
     n, m = len(s["obs"]), len(s["samp"])
     kinds = ["value", "value_to_zero", "value_from_zero", "obs_id", "samp_id", "type", "md_value", "md_absent",
-             "md_extra_key", "md_extra_key"]
+             "md_extra_key", "md_extra_key", "obs_id_tricky", "samp_id_tricky", "obs_id_tricky", "samp_id_tricky"]
     if only is not None:
         kinds = [only]
     if n > 1:
@@ -944,6 +1200,18 @@ def mutate(rng, spec, only=None):
                 continue
             i, j = rng.choice(cells)
             s["rows"][i][j] = float(rng.randint(1, 9))
+            return kind, s
+        if kind in ("obs_id_tricky", "samp_id_tricky"):
+            # one ID replaced by a look-alike: trailing blank / newline / tab, a suffix longer than every ID,
+            # a prefix, another case, a non-ASCII twin (IDs live in fixed-width arrays)
+            ids = s["obs"] if kind == "obs_id_tricky" else s["samp"]
+            k = rng.randrange(len(ids))
+            i = ids[k]
+            longest = max(len(x) for x in ids)
+            cands = [i + " ", i + "\n", i + "\t", " " + i, i + "_" * (longest + 3), i[:-1], i.swapcase(), i + "\u00e9",
+                     i + "\u65e5\u672c\u8a9e", i + i]
+            cands = [c for c in cands if c and c not in ids]
+            ids[k] = rng.choice(cands)
             return kind, s
         if kind == "obs_id":
             s["obs"][rng.randrange(n)] += "_x"
@@ -1083,7 +1351,10 @@ def pair_case(spec_a, route_a, spec_b, route_b, steps, expect, exports=False, qo
     if qorder is None:
         qorder = QORDERS[_qn[0] % len(QORDERS)]
     return {"kind": "pair", "spec_a": spec_a, "route_a": route_a, "spec_b": spec_b, "route_b": route_b,
-            "steps": steps, "exports": bool(exports), "expect": expect, "qorder": qorder, "qrot": _qn[0] % 3}
+            "steps": steps, "exports": bool(exports), "expect": expect, "qorder": qorder, "qrot": _qn[0] % 3,
+            "export_opts": bool(exports) and _qn[0] % 3 == 0,
+            # the a-versus-b query sweep after the history (the by-ID questions against the content are always asked)
+            "sweep": bool(exports) or _qn[0] % 2 == 0}
 
 
 def run(ctx):
@@ -1104,6 +1375,21 @@ def run(ctx):
                        "public constructor path yields them since fix e53d552b, so `unequal` there is agreement of "
                        "model and code, not a violation"]
 
+    # 0. process-level state: the very first exports of the process carry unusual arguments (custom formatters,
+    #    one path re-used for three formats); every later default export is compared with the content
+    from biom import Table as _T
+    import numpy as _np
+    first = _T(_np.array([[1.0, 0.0], [0.0, 2.0]]), ["o1", "o2"], ["s1", "s2"],
+               [{"grp": "q", "taxonomy": ["k__Z"]}, {"grp": "r", "taxonomy": ["k__Y"]}], [{"site": "a"}, {"site": "b"}])
+    shared0 = os.path.join(TMP, "shared0_%d.biom" % os.getpid())
+    try:
+        first.to_tsv(header_key="grp", header_value="GRP", metadata_formatter=lambda x: "ZZ-%s" % x,
+                     observation_column_name="first call")
+        unusual_calls(first, shared0)
+    finally:
+        if os.path.exists(shared0):
+            os.remove(shared0)
+
     # 1. fixed corpus: the repaired defect first — sparse input with one explicit zero vs dense
     #    construction must be == without nnz having been read
     run_pair(ctx, pair_case(DEFECT_SPEC, "csr_zeros", DEFECT_SPEC, "dense", [], "equal", True), ("corpus", "defect-F-C16-1"))
@@ -1116,6 +1402,20 @@ def run(ctx):
     run_kernel(ctx, {"kind": "kernel", "a": PROBE_B, "b": PROBE_A}, ("corpus",))
     run_probe(ctx)
     run_foreign(ctx)
+
+    # 1b. process-level state, early in the run: exports of equal tables taken around exports with unusual
+    #     arguments, every file at one re-used path (repeated at the very end of the run)
+    state_spec = {"obs": ["a", "b", "c"], "samp": ["x", "y"], "rows": [[0.0, 2.0], [1.5, 0.0], [4.0, 3.0]],
+                  "omd": [{"grp": "a", "taxonomy": ["k__A", "p__x"]}, {"grp": "b", "taxonomy": ["k__A"]},
+                          {"grp": "a", "taxonomy": ["k__B", "p__y"]}],
+                  "smd": [{"site": "gut", "ph": 7}, {"site": "skin", "ph": 6}], "type": "OTU table"}
+
+    def state_cases(tag):
+        for ra, rb in (("csr_zeros", "dense"), ("copy", "csc"), ("md_reordered", "lol_dense")):
+            c = pair_case(state_spec, ra, state_spec, rb, [[0, "to_tsv_key"], [1, "to_json"]], "equal", exports=True)
+            c["unusual"] = tag
+            run_pair(ctx, c, ("process-state", tag))
+    state_cases("early")
 
     # 2. every interleaving over the layout-effect classes, on the defect pair and on a CSC/unsorted pair
     max_len = 2 if quick else 3
@@ -1147,7 +1447,7 @@ def run(ctx):
         for i, r in enumerate(routes):
             steps = gen_steps(rng, rng.choice([0, 0, 1, 2, 3]))
             run_pair(ctx, pair_case(spec, r, spec, "dense" if i % 2 == 0 else routes[(i + 1) % len(routes)], steps,
-                                    "equal", exports=(i % 6 == 0)), ("routes",))
+                                    "equal", exports=(i % 8 == 0)), ("routes",))
         # transitivity / symmetry on families: 3 routes of the same content + one single-difference table
         for _ in range(3):
             kind, other = mutate(rng, spec)
@@ -1212,6 +1512,53 @@ def run(ctx):
         else:
             run_pair(ctx, pair_case(spec, other, spec, route, st, "equal", exports=True), ("key-order", "route=" + route))
 
+    # 4f. aliasing: the SOURCE of a derivation (kept alive) after the derived table was updated in place must
+    #     still equal an independent construction, have its content, and answer by ID through its own lookups
+    for k in range(100 if quick else 1500):
+        spec = gen_spec(rng, quick, nonuniform=(k % 5 == 0))
+        if k % 3 == 0 and spec.get("omd") is None:
+            spec["omd"] = core.gen_md(rng, spec["obs"], kind="mixed")
+        how = DERIVATIONS[k % len(DERIVATIONS)]
+        op = ALIAS_OPS[(k // len(DERIVATIONS) + k) % len(ALIAS_OPS)]
+        ra = alias_route(rng.choice(["dense", "csc", "csr_unsorted", "ids_wide_dtype", "ids_object_dtype"]), how, op)
+        rb = rng.choice(["dense", "csr", "lol_coo_zeros"])
+        st = gen_steps(rng, rng.choice([0, 0, 1]))
+        ctx.count("alias=%s" % how)
+        if k % 2:
+            run_pair(ctx, pair_case(spec, ra, spec, rb, st, "equal", exports=(k % 15 == 0)), ("alias", "derive=" + how, "op=" + op))
+        else:
+            run_pair(ctx, pair_case(spec, rb, spec, ra, st, "equal", exports=(k % 15 == 0)), ("alias", "derive=" + how, "op=" + op))
+
+    # 4g. a few wide tables (>= 64 IDs on one axis), IDs in non-axis order: equal pair, a difference in the LAST
+    #     cell, a look-alike LAST ID, an in-place twin and an aliased source, on both axes
+    for k in range(4 if quick else 24):
+        axis = ["sample", "observation"][k % 2]
+        spec = core.wide_spec(rng, axis=axis, classes=VALUE_CLASSES, md=(k % 2 == 0))
+        ids = spec["samp"] if axis == "sample" else spec["obs"]
+        rng.shuffle(ids)
+        spec["type"] = rng.choice(core.TYPES)
+        for r in spec["rows"]:
+            r[-1] = r[-1] or 3.0
+        spec["rows"][-1] = [v or 2.0 for v in spec["rows"][-1]]
+        ctx.count("wide=%s:%d" % (axis, len(ids)))
+        run_pair(ctx, pair_case(spec, "csr_unsorted", spec, "csc", gen_steps(rng, 2), "equal", exports=(k < 2)), ("wide",))
+        cell = copy.deepcopy(spec)
+        cell["rows"][-1][-1] = cell["rows"][-1][-1] + 1.0
+        run_pair(ctx, pair_case(spec, "lol_coo_zeros", cell, "coo", gen_steps(rng, 1), "differs"), ("wide", "last_cell"))
+        run_pair(ctx, pair_case(cell, "dense", spec, "csr_unsorted", [], "differs"), ("wide", "last_cell"))
+        lid = copy.deepcopy(spec)
+        tgt = lid["samp"] if axis == "sample" else lid["obs"]
+        tgt[-1] = tgt[-1] + rng.choice([" ", "_" * 9, "0"])
+        run_pair(ctx, pair_case(lid, "csc", spec, "dense", [], "differs"), ("wide", "last_id"))
+        lmd = copy.deepcopy(spec)
+        if lmd.get("smd") and lmd.get("omd"):
+            (lmd["smd"] if axis == "sample" else lmd["omd"])[-1]["grp"] = "last-changed"
+            run_pair(ctx, pair_case(spec, "dense", lmd, "csr", [], "differs"), ("wide", "last_md"))
+        run_pair(ctx, pair_case(spec, inplace_route("dense", 1, "scale", axis), spec, inplace_route("csc", 0, "scale", axis),
+                                [], "equal", qorder="o" if axis == "observation" else "s"), ("wide", "inplace"))
+        run_pair(ctx, pair_case(spec, alias_route("dense", "sort_order", "rename_ids"), spec, "sort_roundtrip",
+                                gen_steps(rng, 1), "equal"), ("wide", "alias"))
+
     # 4c. one extra metadata key on one ID, compared both ways round (smaller table on the left and on the right),
     #     built by construction and by add_metadata
     for k in range(60 if quick else 800):
@@ -1246,8 +1593,10 @@ def run(ctx):
             run_pair(ctx, pair_case(other, rb, spec, ra, st, "differs"), ("single-difference", "mutation=" + kind))
 
     # 6. kernel level: dataEq vs the real _data_equality, eliminateZeros vs scipy's eliminate_zeros
-    for k in range(900 if quick else 20000):
+    for k in range(700 if quick else 20000):
         run_kernel(ctx, gen_kernel_case(rng), ("kernel",))
+
+    state_cases("late")
 
     # nothing may be left behind
     left = [f for f in os.listdir(TMP) if f.endswith(".h5")] if os.path.isdir(TMP) else []
